@@ -257,6 +257,11 @@ func (g *Gen) objTerm(obj types.Object, env *Env) (Term, error) {
 		case constant.Bool:
 			return Term{S: fmt.Sprint(constant.BoolVal(v)), Sort: "Bool", T: o.Type()}, nil
 		}
+	case *types.Func:
+		// a function value: the same constant that a use of the function in code denotes
+		if fn := g.P.prog.FuncValue(o); fn != nil {
+			return g.term(fn), nil
+		}
 	case *types.Var:
 		// package-level variable: cell (or struct object) at the global's reference
 		n := g.declare("glob!"+sanitize(o.Pkg().Name()+"_"+o.Name()), "Int")
@@ -840,6 +845,52 @@ func (g *Gen) evalCall(n *Node, env *Env) (Term, error) {
 			return Term{}, fmt.Errorf("typeis: unknown type %s", tn)
 		}
 		return Term{S: fmt.Sprintf("(and (not (= %s 0)) (= (tagof %s) %d))", x.S, x.S, id), Sort: "Bool"}, nil
+	case "iszero":
+		// iszero(x.f): the foreign struct value stored at x.f is its zero value (as far as the engine saw stores)
+		x, err := arg(0)
+		if err != nil {
+			return Term{}, err
+		}
+		et, ok := derefT(x.T)
+		if !ok {
+			return Term{}, fmt.Errorf("iszero: not an addressable struct")
+		}
+		h := "O_" + typeKey(et)
+		return Term{S: fmt.Sprintf("(= (select %s %s) 0)", g.svIn(env.st, h, "(Array Int Int)"), x.S), Sort: "Bool"}, nil
+	case "unbox", "as":
+		// unbox(x, T): the concrete payload of interface value x, typed as T (combine with typeis(x, T))
+		x, err := arg(0)
+		if err != nil {
+			return Term{}, err
+		}
+		tn := nodePath(args[1])
+		tt, ok := g.P.typeByName(tn, env.pkg)
+		if !ok {
+			return Term{}, fmt.Errorf("unbox: unknown type %s", tn)
+		}
+		if g.sortOf(tt) == "Str" {
+			return Term{S: fmt.Sprintf("(unboxS %s)", x.S), Sort: "Str", T: tt}, nil
+		}
+		if ss := g.sortOf(tt); strings.HasPrefix(ss, "S_") {
+			g.declBox(ss)
+			return Term{S: fmt.Sprintf("(unbox!%s %s)", ss, x.S), Sort: ss, T: tt}, nil
+		}
+		return Term{S: fmt.Sprintf("(unboxI %s)", x.S), Sort: g.sortOf(tt), T: tt}, nil
+	case "rangepos":
+		// position (byte offset of the next rune to be read) of the string range iterator in scope
+		for _, src := range []map[string]string{g.svSort, func() map[string]string {
+			if g.pass1 != nil {
+				return g.pass1.svSort
+			}
+			return nil
+		}()} {
+			for n, srt := range src {
+				if strings.HasPrefix(n, "$it_") && srt == "Int" {
+					return Term{S: g.svIn(env.st, n, "Int"), Sort: "Int", T: types.Typ[types.Int]}, nil
+				}
+			}
+		}
+		return Term{}, fmt.Errorf("rangepos: no string range iterator in scope")
 	case "seen":
 		// seen(k): key k already visited by the (single) map range iterator in scope
 		k, err := arg(0)
